@@ -567,13 +567,22 @@ def t_map(I, args, kw, node):
     return [I.call(args[0], [x], {}, node) for x in I.iter_concrete(args[1], node)]
 
 
+def t_stringio(I, args, kw, node):
+    """io.StringIO(): an abstract text sink: write(s) appends to the recorded pieces, getvalue() returns ("text-written-to", sink); usable in `with`"""
+    from .values import SymFn
+    o = SObj(None, {"_pieces": []}, I.ctx.fresh_name("StringIO"))
+    o.f.update(write=SymFn(lambda I2, s_: o.f["_pieces"].append(s_), "write"), getvalue=SymFn(lambda I2: ("text-written-to", o), "getvalue"),
+               close=SymFn(lambda I2: None, "close"), __enter__=SymFn(lambda I2: o, "__enter__"), __exit__=SymFn(lambda I2, *a: None, "__exit__"))
+    return o
+
+
 def t_frozenset(I, args, kw, node):
     return frozenset(t_set(I, args, kw, node))
 
 
 import itertools as _itertools
 import io as _io
-TYPES = {map: t_map, _io.BytesIO: t_bytesio, _itertools.islice: t_islice, frozenset: t_frozenset, _array.array: t_array, int: t_int, float: t_float, bool: t_bool, bytes: t_bytes, list: t_list, tuple: t_tuple,
+TYPES = {map: t_map, _io.StringIO: t_stringio, _io.BytesIO: t_bytesio, _itertools.islice: t_islice, frozenset: t_frozenset, _array.array: t_array, int: t_int, float: t_float, bool: t_bool, bytes: t_bytes, list: t_list, tuple: t_tuple,
          set: t_set, dict: t_dict, str: t_str, range: b_range, enumerate: b_enumerate, zip: b_zip,
          reversed: b_reversed, object: t_object}
 
